@@ -15,6 +15,8 @@ pub mod c16;
 pub mod c17;
 pub mod c25;
 pub mod c26;
+pub mod c27;
+pub mod c28;
 pub mod c36;
 
 pub fn run(ctx: &Ctx, id: &str) -> bool {
@@ -34,6 +36,8 @@ pub fn run(ctx: &Ctx, id: &str) -> bool {
         "C17" => c17::run(ctx),
         "C25" => c25::run(ctx),
         "C26" => c26::run(ctx),
+        "C27" => c27::run(ctx),
+        "C28" => c28::run(ctx),
         "C36" => c36::run(ctx),
         _ => return false,
     }
